@@ -31,9 +31,13 @@ mod c06;
 mod c07;
 mod c08;
 mod c09;
+mod c10;
+mod c11;
+mod c12;
 mod c16;
 mod c17;
 mod c13;
+mod c14;
 mod c15;
 mod c18;
 mod c19;
@@ -48,9 +52,16 @@ fn usage() -> ! {
 
 fn main() {
     vlib::report::install_panic_hook();
+    let owner = ctx::claim_run_dir();
+    if owner {
+        std::env::set_var("VCHECK_RUN_OWNER", std::process::id().to_string());
+    }
     let args: Vec<String> = std::env::args().skip(1).collect();
     if args.is_empty() {
         usage();
+    }
+    if args[0] == "c11-child" {
+        c11::child_main(&args[1..]);
     }
     if args[0] == "worker" || args[0] == "worker-one" {
         let one = args[0] == "worker-one";
@@ -103,9 +114,15 @@ fn main() {
             std::process::exit(2)
         });
         let code = dispatch_replay(&ctx, &v);
+        if owner {
+            ctx::release_run_dir();
+        }
         std::process::exit(code);
     }
     let code = dispatch(&ctx);
+    if owner {
+        ctx::release_run_dir();
+    }
     std::process::exit(code);
 }
 
@@ -120,9 +137,13 @@ fn dispatch(ctx: &Ctx) -> i32 {
         "C07" => c07::run(ctx),
         "C08" => c08::run(ctx),
         "C09" => c09::run(ctx),
+        "C10" => c10::run(ctx),
         "C16" => c16::run(ctx),
         "C17" => c17::run(ctx),
+        "C11" => c11::run(ctx),
+        "C12" => c12::run(ctx),
         "C13" => c13::run(ctx),
+        "C14" => c14::run(ctx),
         "C15" => c15::run(ctx),
         "C18" => c18::run(ctx),
         "C19" => c19::run(ctx),
@@ -145,9 +166,13 @@ fn dispatch_replay(ctx: &Ctx, v: &serde_json::Value) -> i32 {
         "C07" => c07::replay(ctx, v),
         "C08" => c08::replay(ctx, v),
         "C09" => c09::replay(ctx, v),
+        "C10" => c10::replay(ctx, v),
         "C16" => c16::replay(ctx, v),
         "C17" => c17::replay(ctx, v),
+        "C11" => c11::replay(ctx, v),
+        "C12" => c12::replay(ctx, v),
         "C13" => c13::replay(ctx, v),
+        "C14" => c14::replay(ctx, v),
         "C15" => c15::replay(ctx, v),
         "C18" => c18::replay(ctx, v),
         "C19" => c19::replay(ctx, v),
@@ -166,6 +191,7 @@ fn worker_sweeps(ctx: &Ctx) -> Vec<sweep::Sweep> {
         "C03" => c03::sweeps(ctx),
         "C04" => c04::sweeps(ctx),
         "C05" => c05::sweeps(ctx),
+        "C12" => c12::sweeps(ctx),
         "C16" => c16::sweeps(ctx),
         _ => {
             eprintln!("MACHINERY: no worker sweeps for {}", ctx.property);
